@@ -28,7 +28,10 @@ impl SelectionFieldArgument {
     pub fn into_key_and_value(&self) -> ArgumentKeyAndValue {
         ArgumentKeyAndValue {
             key: self.name.item,
-            value: self.value.item.clone(),
+            // An ArgumentKeyAndValue identifies a selection (it is part of the key under which
+            // selections are merged). Where the value was written must not matter, so the
+            // locations inside of objects and lists are dropped, like the value's own location.
+            value: self.value.item.clone().without_locations(),
         }
     }
 }
@@ -59,6 +62,43 @@ pub enum NonConstantValueInner<TLocation> {
 }
 
 pub type NonConstantValue = NonConstantValueInner<EmbeddedLocation>;
+
+impl NonConstantValue {
+    /// The same value, with every location inside of it (the locations of the entries of objects
+    /// and of the items of lists) replaced by a generated location. Values that are written the
+    /// same way at different places are equal after this.
+    pub fn without_locations(self) -> NonConstantValue {
+        match self {
+            NonConstantValueInner::List(items) => NonConstantValueInner::List(
+                items
+                    .into_iter()
+                    .map(|item| {
+                        item.item
+                            .without_locations()
+                            .with_location(EmbeddedLocation::todo_generated())
+                    })
+                    .collect(),
+            ),
+            NonConstantValueInner::Object(entries) => NonConstantValueInner::Object(
+                entries
+                    .into_iter()
+                    .map(|entry| NameValuePair {
+                        name: entry
+                            .name
+                            .item
+                            .with_location(EmbeddedLocation::todo_generated()),
+                        value: entry
+                            .value
+                            .item
+                            .without_locations()
+                            .with_location(EmbeddedLocation::todo_generated()),
+                    })
+                    .collect(),
+            ),
+            other => other,
+        }
+    }
+}
 
 impl<TLocation> NonConstantValueInner<TLocation> {
     pub fn to_alias_str_chunk(&self) -> String {
